@@ -260,16 +260,16 @@ def flatten(text, top=None):
                     if pn not in tports or e is None:
                         continue
                     e2 = ren(e, mp)
-                    if e2[0] == 'id':
-                        cmap[pn] = e2[1]
+                    # a port is a net of the port's own width: inputs are continuously assigned from the connected
+                    # expression (truncated / zero-extended), outputs continuously drive the connected net
+                    nn = pre + pn
+                    w = width_of(tports[pn][2])
+                    out.append(('decl', 'wire', False, ('range', ('num', w - 1, None, True), ('num', 0, None, True)), [(nn, [], None)]))
+                    if tports[pn][1] == 'input':
+                        out.append(('assign', ('id', nn), e2))
                     else:
-                        # expression connection: introduce a net
-                        nn = pre + pn
-                        w = width_of(tports[pn][2])
-                        out.append(('decl', 'wire', False, ('range', ('num', w - 1, None, True), ('num', 0, None, True)), [(nn, [], None)]))
-                        if tports[pn][1] == 'input':
-                            out.append(('assign', ('id', nn), e2))
-                        cmap[pn] = nn
+                        late.append(('assign', e2, ('id', nn)))
+                    cmap[pn] = nn
                 # local identifiers of the child
                 for sub in t.items:
                     if sub[0] == 'decl':
@@ -288,12 +288,15 @@ def flatten(text, top=None):
                     if isreg and cmap[pn] not in declared_regs:
                         declared_regs.add(cmap[pn])
                 inline(t, cmap, out, depth + 1)
+                out.extend(late)
+                del late[:]
             elif it[0] == 'decl':
                 names = [(mp.get(n, n), dims, ren(init, mp) if init is not None else None) for n, dims, init in it[4]]
                 out.append(('decl', it[1], it[2], it[3], names))
             else:
                 out.append(ren(it, mp))
     declared_regs = set()
+    late = []
     out = []
     inline(topm, {}, out)
     ports = {}
